@@ -104,7 +104,7 @@ func TestTreeHistories(t *testing.T) {
 		nodes := []*tnode{{l: st.fresh(sink), parent: -1}}
 		var hist []string
 		nontrivial := false
-		failed := 0
+		failed, refused := 0, 0
 		pick := func(t *rapid.T, label string) int {
 			// prefer nodes that carry attributes and already have children: that is where aliasing would bite
 			var pref []int
@@ -181,6 +181,17 @@ func TestTreeHistories(t *testing.T) {
 			"log": func(t *rapid.T) {
 				doLog(t, pick(t, "node"), genRec(t))
 			},
+			"refusedWrite": func(t *rapid.T) {
+				// the destination refuses one write (a full pipe, a rotated file): the record that met it is lost, and that
+				// is all - the logger that lost it, its parent and its siblings go on writing what they would have written
+				n := nodes[pick(t, "node")]
+				sink.Reset()
+				sink.Fail, sink.FailedCalls = &lm.Failure{Times: 1, Accept: rapid.SampledFrom([]int{0, 0, 5, 1 << 20}).Draw(t, "acceptedBytes"), Kind: rapid.IntRange(0, 2).Draw(t, "errorKind")}, 0
+				n.l.Warn("a record that meets a destination that refuses it", "k", 1)
+				sink.Fail = nil
+				refused++
+				hist = append(hist, "a write refused by the destination")
+			},
 			"failedWith": func(t *rapid.T) {
 				// a derivation (or a record) that does not come about: a value panics while it is rendered - a typed nil whose
 				// Error() dereferences it, a buggy Marshaler - and the caller recovers. No logger results from it, and the
@@ -212,6 +223,9 @@ func TestTreeHistories(t *testing.T) {
 		ev.Label("handler:" + lm.HandlerNames[st.kind])
 		if failed > 0 {
 			ev.Label("history_with_a_derivation_or_record_whose_value_panics")
+		}
+		if refused > 0 {
+			ev.Label("history_with_a_write_the_destination_refused")
 		}
 		ev.Case(nontrivial, ev.Hash(append([]string{st.String()}, hist...)...), func() string { return st.String() + ": " + strings.Join(hist, "; ") })
 	})
